@@ -259,3 +259,70 @@ func LoadGrammar() (*pegi.Grammar, error) {
 	}
 	return pegi.ParseGrammar(string(b))
 }
+
+// SuiteExpect is one case of the library's own test file together with what the maintainers expect.
+type SuiteExpect struct {
+	Path, JSON   string
+	ExpectedJSON string // "" when an error is expected
+	ErrKind      string // member / type / "" (other or none)
+	ErrArgs      []string
+	Custom       bool // the case uses its own functions, accessor mode, unmarshal function or validator
+}
+
+var (
+	pathRe    = regexp.MustCompile("jsonpath:\\s*`([^`]*)`,")
+	inputRe   = regexp.MustCompile("inputJSON:\\s*`([^`]*)`")
+	expJSONRe = regexp.MustCompile("expectedJSON:\\s*`([^`]*)`")
+	errMemRe  = regexp.MustCompile("expectedErr:\\s*createErrorMemberNotExist\\(`([^`]*)`\\)")
+	errTypeRe = regexp.MustCompile("expectedErr:\\s*createErrorTypeUnmatched\\(`([^`]*)`,\\s*`([^`]*)`,\\s*`([^`]*)`\\)")
+)
+
+// HarvestSuiteExpectations reads the (path, input, expectation) triples of /repo/test_jsonpath_test.go.
+func HarvestSuiteExpectations() []SuiteExpect {
+	root := os.Getenv("VERIF_REPO")
+	if root == "" {
+		root = "/repo"
+	}
+	b, err := os.ReadFile(root + "/test_jsonpath_test.go")
+	if err != nil {
+		return nil
+	}
+	var out []SuiteExpect
+	src := string(b)
+	locs := pathRe.FindAllStringSubmatchIndex(src, -1)
+	for i, loc := range locs {
+		m := []string{"", src[loc[2]:loc[3]]}
+		end := len(src)
+		if i+1 < len(locs) {
+			end = locs[i+1][0]
+		}
+		body := src[loc[1]:end] // everything up to the next case
+		in := inputRe.FindStringSubmatch(body)
+		if in == nil {
+			continue
+		}
+		e := SuiteExpect{Path: m[1], JSON: in[1]}
+		for _, w := range []string{"filters:", "aggregates:", "accessorMode:", "unmarshalFunc:", "resultValidator:"} {
+			if strings.Contains(body, w) {
+				e.Custom = true
+			}
+		}
+		if x := errMemRe.FindStringSubmatch(body); x != nil {
+			e.ErrKind, e.ErrArgs = "member", x[1:]
+		} else if x := errTypeRe.FindStringSubmatch(body); x != nil {
+			e.ErrKind, e.ErrArgs = "type", x[1:]
+		} else if strings.Contains(body, "expectedErr:") {
+			continue // syntax-check errors, function errors: not SPEC's business (an expectedErr wins over an expectedJSON in the suite)
+		} else if x := expJSONRe.FindStringSubmatch(body); x != nil {
+			e.ExpectedJSON = x[1]
+		} else if x := errMemRe.FindStringSubmatch(body); x != nil {
+			e.ErrKind, e.ErrArgs = "member", x[1:]
+		} else if x := errTypeRe.FindStringSubmatch(body); x != nil {
+			e.ErrKind, e.ErrArgs = "type", x[1:]
+		} else {
+			continue // syntax errors etc.: not SPEC's business
+		}
+		out = append(out, e)
+	}
+	return out
+}
